@@ -3,6 +3,7 @@ import TieD.SumProofs
 import TieD.UpdateProofs
 import TieD.ConcatProofs
 import TieD.StackProofs
+import TieD.LocProofs
 /-!
 # TIED on every reachable diagram — no shape hypothesis left
 
@@ -73,5 +74,15 @@ theorem TIED_stack {V : Type} [AddCommMonoid V] (factors : List ℕ) (els : List
     letI : Inhabited V := ⟨0⟩
     GenD.add_stack (0 : V) (unitsI factors) (els.map fld) (2 : Int) = .ok (fld d) :=
   stack_eq factors els d n hr hside h
+
+/-- `ADD.get_update_location` as written (template: the assignment sorted by unit position, the walk down the levels with Python `set`s of node numbers kept as sorted
+duplicate-free lists, the `while` loop unrolled with fuel, every array access bounds-checked), on a reachable diagram and an assignment of candidate indices: whenever the model's
+`getUpdateLocation` succeeds, the translated method succeeds with the same edges -/
+theorem TIED_getloc {V : Type} [AddCommMonoid V] (d : Diagram V) (asg : List (ℕ × ℕ)) (loc : List (ℕ × ℕ × ℕ)) (hr : Reach d) (hv : ∀ uv ∈ asg, uv.2 < d.C)
+    (h : d.getUpdateLocation asg = .ok loc) :
+    GenD.add_get_update_location (unitsI d.units) (d.root : Int) (nodesOf d.levels) (childOf d.levels) (d.C : Int)
+        (asg.map (fun uv => (uv.1 : Int))) (asg.map (fun uv => (uv.2 : Int)))
+      = .ok (locI loc) :=
+  getloc_eq d asg loc hr hv h
 
 end DsProofs.TieD
